@@ -27,9 +27,27 @@ def strategy_for(profiles, tier="quick"):
     # constructed coincidences (several causes for one process on one instant; a burst of enabling
     # operations for a crowd of waiters): about a quarter of all cases
     k = max(1, len(opts) // 6)
-    opts += [simgen.coincide()] * k + [simgen.crowd()] * k + [simgen.churn()] * max(1, k // 2) \
+    constructed = [simgen.coincide()] * k + [simgen.crowd()] * k + [simgen.churn()] * max(1, k // 2) \
         + [simgen.deep()] * max(1, k // 2)
+    if any(name == "recording" for _w, name in profiles):
+        # the constructed scenarios declare no recording of their own: switch it on for every object
+        constructed = [g.map(_record_all) for g in constructed]
+    opts += constructed
     return trusting(st.one_of(*opts))
+
+
+def _record_all(text):
+    out = []
+    names = []
+    for ln in text.split("\n"):
+        w = ln.split()
+        if w and w[0] in ("res", "pool", "buf", "oq", "pq"):
+            names.append(w[1])
+        if w and w[0] == "proc" and names:
+            out += ["record %s" % n for n in names]
+            names = []
+        out.append(ln)
+    return "\n".join(out)
 
 
 def trusting(base):
